@@ -1,7 +1,7 @@
 // Package wiring holds the end-to-end "wiring" stages of the monitors whose main workload drives
 // the Go API in-process: a handful of exchanges per property through the REAL command-line
-// binary, configured through flags in one child and through FORWARDER_* environment variables in
-// another, so that a change in the command / flag / configuration layer (command/, bind/) that
+// binary, configured through flags in one child, through FORWARDER_* environment variables in another
+// and through a YAML config file in a third, so that a change in the command / flag / configuration layer (command/, bind/) that
 // breaks a property is seen as well. The oracles are the same statements, on a few decisive cases.
 package wiring
 
@@ -62,7 +62,13 @@ func echo(oc *lib.OConn, req *lib.Msg) lib.Action {
 // FORWARDER_NAME=value (lists joined by commas).
 func (e *env) child(channel string, opts map[string][]string, withAPI bool) (*lib.CLI, error) {
 	var args, envs []string
+	var yaml strings.Builder
 	for k, vs := range opts {
+		if channel == "config" {
+			// YAML config file: one key per option, lists as comma-separated single-quoted strings
+			fmt.Fprintf(&yaml, "%s: '%s'\n", k, strings.ReplaceAll(strings.Join(vs, ","), "'", "''"))
+			continue
+		}
 		if channel == "env" {
 			envs = append(envs, "FORWARDER_"+strings.ToUpper(strings.ReplaceAll(k, "-", "_"))+"="+strings.Join(vs, ","))
 			continue
@@ -76,6 +82,11 @@ func (e *env) child(channel string, opts map[string][]string, withAPI bool) (*li
 		api = lib.FreeAddr()
 	}
 	n := e.seq.Add(1)
+	if channel == "config" {
+		cf := filepath.Join(e.run.Work, fmt.Sprintf("wiring-config-%d.yaml", n))
+		os.WriteFile(cf, []byte(yaml.String()), 0o600)
+		args = append(args, "--config-file="+cf)
+	}
 	c, err := lib.StartCLIAt(lib.Bin(e.run, "forwarder"), args, envs, filepath.Join(e.run.Work, fmt.Sprintf("wiring-%s-%d.log", channel, n)), lib.FreeAddr(), api)
 	if err != nil {
 		// every option used here is documented: a binary that refuses one of them cannot honour it
@@ -140,7 +151,7 @@ func Run(run *lib.Run, prop string) {
 		"C18": {e.via},
 		"C20": {e.limits},
 	}
-	for _, channel := range []string{"flags", "env"} {
+	for _, channel := range []string{"flags", "env", "config"} {
 		for _, sc := range scenarios[prop] {
 			if sc(channel) {
 				run.Count("wiring_checks", 1)
